@@ -1270,12 +1270,15 @@ POLICIES_FOR_UNLINKED = [
 ]
 
 
-def unlinked_cases():
+POLICIES_FOR_UNLINKED_QUICK = [POLICIES_FOR_UNLINKED[i] for i in (0, 1, 2, 4, 6)]
+
+
+def unlinked_cases(policies):
     """(d): the destination field ``f`` has no same-named source (the source field is called ``other``),
     at top level and one model deeper, for every pool type x {required, optional} x policy shapes."""
     for d in POOL:
         for optional in (False, True):
-            for policy in POLICIES_FOR_UNLINKED:
+            for policy in policies:
                 src = model("Src", [("k", INT), ("other", d)])
                 dst = model("Dst", [("k", INT), ("f", d, optional)])
                 yield {"src": src, "dst": dst, "params": [], "policy": policy}
@@ -1664,27 +1667,31 @@ def sampled(ctx: runner.Ctx, case):
 
 def explore(ctx: runner.Ctx):
     # 1. all ordered pairs of the pool x configurations, sharded by index
-    # quick: 4 of the 6 configurations (the two dropped ones differ only in a policy that a linked field ignores)
-    configs = PAIR_CONFIGS if ctx.tier == "thorough" else [PAIR_CONFIGS[i] for i in (0, 3, 4, 5)]
+    # thorough: all 6 configurations per pair.  quick: the plain one (required field, default policy) for every
+    # pair plus ONE of the other five in rotation (they only change how the same two types meet).
+    thorough = ctx.tier == "thorough"
     n = 0
-    for s, d in itertools.product(POOL, POOL):
+    for (si, s), (di, d) in itertools.product(enumerate(POOL), enumerate(POOL)):
+        configs = PAIR_CONFIGS if thorough else [PAIR_CONFIGS[0], PAIR_CONFIGS[1 + (si + di) % (len(PAIR_CONFIGS) - 1)]]
         for config in configs:
             if n % ctx.nshards == ctx.shard:
                 ctx.label(f"pairs:{check_case(ctx, pair_case(s, d, config))}")
             n += 1
     # 2. unlinked destination fields
-    for case in unlinked_cases():
+    for case in unlinked_cases(POLICIES_FOR_UNLINKED if thorough else POLICIES_FOR_UNLINKED_QUICK):
         if n % ctx.nshards == ctx.shard:
             ctx.label(f"unlinked:{check_case(ctx, case)}")
         n += 1
+    npol = len(POLICIES_FOR_UNLINKED if thorough else POLICIES_FOR_UNLINKED_QUICK)
     ctx.mark_exhaustive(
-        f"all {len(POOL)}^2 = {len(POOL) ** 2} ordered pairs of the type pool x {len(configs)} configurations "
-        "(thorough: field required/optional x forbid/allow policy, extra-parameter source, top-level converter; "
-        "quick: required+forbid, optional+allow, extra-parameter source, top-level converter); "
-        f"unlinked destination field: {len(POOL)} types x required/optional x {len(POLICIES_FOR_UNLINKED)} policy "
+        f"all {len(POOL)}^2 = {len(POOL) ** 2} ordered pairs of the type pool x "
+        + ("6 configurations (field required/optional x forbid/allow policy, extra-parameter source, top-level "
+           "converter)" if thorough else
+           "2 configurations (required field + default policy for every pair, one of the other five in rotation)")
+        + f"; unlinked destination field: {len(POOL)} types x required/optional x {npol} policy "
         "shapes x (top level, nested, nested with a same-named parameter)")
     # 3. nested combinations: source type and a destination derived by local rewrites
-    ctx.given(st_case(), lambda case: sampled(ctx, case), ctx.budget(5000, 400000))
+    ctx.given(st_case(), lambda case: sampled(ctx, case), ctx.budget(5000, 300000))
 
 
 RULE = ("exhaustive part: every ordered pair (S, D) of a fixed pool of field types as the type of one field of "
